@@ -49,6 +49,17 @@ func init() {
 	}})
 }
 
+// c14Digit: a named byte type; a slice of it is a slice of bytes as far as its elements go
+type c14Digit uint8
+
+func c14Digits(s string) []c14Digit {
+	out := make([]c14Digit, len(s))
+	for i := 0; i < len(s); i++ { // byte by byte (ranging over a string would step by runes)
+		out[i] = c14Digit(s[i])
+	}
+	return out
+}
+
 type c14Named string
 type c14NamedBytes []byte // a named byte-slice type (like json.RawMessage): a byte slice by kind
 // c14ValErr is a concrete, non-pointer error type: its zero value is a non-nil error with a message.
@@ -60,7 +71,7 @@ type c14Err struct{ msg string }
 
 func (e *c14Err) Error() string { return e.msg }
 
-var retShapes = []string{"string", "bytes", "error", "int,string", "int,bytes", "int,error", "string,error", "bytes,error", "*string", "named", "iface", "*bytes", "namedbytes", "int,namedbytes", "valerr", "int,valerr", "string,valerr", "iface-err", "int,iface-err", "int,iface", "int,string,int", "bool", "struct"}
+var retShapes = []string{"string", "bytes", "error", "int,string", "int,bytes", "int,error", "string,error", "bytes,error", "*string", "named", "iface", "*bytes", "namedbytes", "int,namedbytes", "valerr", "int,valerr", "string,valerr", "iface-err", "int,iface-err", "int,iface", "int,string,int", "bool", "struct", "digits", "int,digits", "*digits", "digits,error"}
 
 var (
 	tString = reflect.TypeOf("")
@@ -168,6 +179,15 @@ func (c *retCase) outs() ([]reflect.Type, []reflect.Value) {
 		return []reflect.Type{tPStr}, []reflect.Value{c.strish(tPStr)}
 	case "*bytes":
 		return []reflect.Type{tPBytes}, []reflect.Value{c.strish(tPBytes)}
+	case "digits":
+		return []reflect.Type{reflect.TypeOf([]c14Digit(nil))}, []reflect.Value{reflect.ValueOf(c14Digits(string(c.Str)))}
+	case "int,digits":
+		return []reflect.Type{tInt, reflect.TypeOf([]c14Digit(nil))}, []reflect.Value{reflect.ValueOf(c.Int), reflect.ValueOf(c14Digits(string(c.Str)))}
+	case "*digits":
+		d := c14Digits(string(c.Str))
+		return []reflect.Type{reflect.TypeOf(&d)}, []reflect.Value{reflect.ValueOf(&d)}
+	case "digits,error":
+		return []reflect.Type{reflect.TypeOf([]c14Digit(nil)), tError}, []reflect.Value{reflect.ValueOf(c14Digits(string(c.Str))), c.errValue()}
 	case "iface-err": // a result slot declared interface{} that holds a non-nil error: still a non-nil error
 		return []reflect.Type{tIface}, []reflect.Value{reflect.ValueOf(errors.New("ie:" + string(c.Str))).Convert(tIface)}
 	case "int,iface-err":
@@ -218,7 +238,14 @@ func retTable(c *retCase) (int, string, bool) {
 		return 200, body, true
 	}
 	switch c.Shape {
-	case "string", "named", "bytes", "*string", "*bytes", "iface", "namedbytes":
+	case "string", "named", "bytes", "*string", "*bytes", "iface", "namedbytes", "digits", "*digits":
+		return one()
+	case "int,digits":
+		return c.Int, body, true
+	case "digits,error":
+		if c.Err != "" {
+			return 500, c.errText(), true
+		}
 		return one()
 	case "iface-err":
 		return 500, "ie:" + string(c.Str), true
@@ -273,8 +300,8 @@ func (c *retCase) unjudged() bool {
 		return false
 	}
 	switch c.Shape {
-	case "bytes", "*string", "*bytes", "iface", "bytes,error", "namedbytes":
-		return c.Shape != "bytes,error" || c.Err == ""
+	case "bytes", "*string", "*bytes", "iface", "bytes,error", "namedbytes", "digits", "*digits", "digits,error":
+		return (c.Shape != "bytes,error" && c.Shape != "digits,error") || c.Err == ""
 	}
 	return false
 }
